@@ -65,7 +65,7 @@ def _sites_formula(R, s, L):
     from symx import core
     site = {0: z3.BoolVal(True), L: z3.BoolVal(True)}
     for k in range(1, L):
-        site[k] = core.zbool(R.cond(s, k - 1))
+        site[k] = core.zbool(R.site_cond(s, k))
     return site
 
 
@@ -140,10 +140,9 @@ def _one_call(ctx, F, cfg, ci, lens, reverse):
             boundary = z3.Or(site[p], site[p + 1])
             # first/last residue of every enzymatic peptide stays in place
             props.append(("fixed_ends%d_%d" % (pi, p), z3.Implies(boundary, zc[q] == zc[p])))
-            if q != p:
-                lo, hi = min(p, q), max(p, q)
-                props.append(("within_peptide%d_%d" % (pi, p), z3.Not(z3.Or([site[k] for k in range(lo + 1, hi + 1)]))))
-        if pat == "[KR]":
+            # (that a residue stays inside its own peptide is NOT demanded: the statement speaks of contents -
+            #  length, composition, peptide ends, cleavage sites, reversal - not of token identity)
+        if pat in ("[KR]", "(?=D)"):
             dsite = _sites_formula(R, d, L)
             for k in range(1, L):
                 props.append(("same_sites%d_%d" % (pi, k), dsite[k] == site[k]))
@@ -155,7 +154,9 @@ def _one_call(ctx, F, cfg, ci, lens, reverse):
                     for j in range(0, b - a - 2):
                         props.append(("reversed%d_%d_%d_%d" % (pi, a, b, j), z3.Implies(ispep, zc[src[a + 1 + j]] == zc[b - 2 - j])))
     outputs = [[str.__str__(n), items.SymText(s)] for n, s in decoys] if not log else None
-    return props, inputs, [z3.Distinct(zc) for zc in zcs if len(zc) > 1], outputs
+    # distinct residues make a moved token visible; pairwise (soft) because an enzyme residue may have to repeat
+    prefer = [z3.Distinct(zc) for zc in zcs if len(zc) > 1] + [zc[a] != zc[b] for zc in zcs for a in range(len(zc)) for b in range(a + 1, len(zc))]
+    return props, inputs, prefer, outputs
 
 
 # ---- make_decoys round trip on a VFS ---------------------------------------------
@@ -251,7 +252,7 @@ def preflight(tier):
         if a != b:
             return "textwrap.wrap treats token strings differently from letters at n=%d: %s vs %s" % (n, a, b)
     from symx import rx
-    return rx.selftest(["[KR]", "[KR](?!P)"], maxlen=4)
+    return rx.selftest(["[KR]", "[KR](?!P)", "(?=D)"], alphabet="KRPDMA", maxlen=4)
 
 
 def harnesses(tier):
@@ -261,10 +262,12 @@ def harnesses(tier):
     lmax = 5 if tier == "quick" else 7
     stubs = ["re -> symx.rx", "numpy.random.permutation -> arbitrary permutation (every permutation for n <= 4, else {identity, reversal, rotation}); identity drawn at most once",
              "str -> tokenised residue string"]
-    for pat in ("[KR]", "[KR](?!P)"):
+    for pat in ("[KR]", "[KR](?!P)", "(?=D)"):
         for reverse in (False, True):
             for L in range(0, lmax + 1):
-                if pat != "[KR]" and L < 3:
+                if pat == "[KR](?!P)" and L < 3:
+                    continue
+                if pat == "(?=D)" and (L < 2 or (tier == "quick" and L > 4)):
                     continue
                 hs.append(Harness("shuffle[%s,%s,L=%d]" % (pat, "reverse" if reverse else "shuffle", L),
                                   dict(pattern=pat, reverse=reverse, lens=[L]), sym_shuffle, real="shuffle",
